@@ -81,11 +81,7 @@ Theorem C09_sessions_isolated :
   let st := stub_sessions (Some h) close_resets_sync stub_init (map session_msgs ss) in
   ss_calls st = flat_map session_delivery ss /\ ss_acc st = None /\
   (forall s, In s ss -> (length (session_delivery s) <= 1)%nat).
-Proof.
-  intros A B U h ss. cbv zeta.
-  exact (conj (proj1 (sessions_isolated A B U h ss))
-        (conj (proj2 (sessions_isolated A B U h ss)) (fun s _ => delivery_at_most_once A B s))).
-Qed.
+Proof. exact sessions_isolated_full. Qed.
 Print Assumptions C09_sessions_isolated.
 
 (* the case the statement was written for: any number of registrations that failed after any
